@@ -393,6 +393,9 @@ type c12ScribDst struct {
 	D  map[string]string
 	T  c12ScribText
 	JL []*c12ScribCtx
+	// interface-typed members that hold scribbling unmarshalers (found at run time)
+	IJ gojson.Unmarshaler
+	IT encoding.TextUnmarshaler
 	Z  string
 	N  gojson.Number
 }
@@ -402,11 +405,12 @@ type c12ScribDst struct {
 func c12ScribblerCase(c *rt.Ctx, sub int, r *rand.Rand, entry string) {
 	pad := strings.Repeat("p", r.Intn(700))
 	one := func(i int) string {
-		return fmt.Sprintf(`{"A":"before%d%s","J":{"k":[%d,"x"]},"B":[%d,2,3],"C":[%d,{"c":"v"}],"D":{"k":"v%d"},"T":"text%d","JL":[{"a":%d},"s",[%d]],"Z":"after%d","N":%d.5}`, i, pad, i, i, i, i, i, i, i, i, i)
+		return fmt.Sprintf(`{"A":"before%d%s","J":{"k":[%d,"x"]},"B":[%d,2,3],"C":[%d,{"c":"v"}],"D":{"k":"v%d"},"T":"text%d","JL":[{"a":%d},"s",[%d]],"IJ":{"ij":[%d]},"IT":"itext%d","Z":"after%d","N":%d.5}`, i, pad, i, i, i, i, i, i, i, i, i, i, i)
 	}
 	check := func(v *c12ScribDst, i int) string {
 		want := c12ScribDst{A: fmt.Sprintf("before%d%s", i, pad), J: c12ScribJSON{fmt.Sprintf(`{"k":[%d,"x"]}`, i)}, B: []int{i, 2, 3}, C: c12ScribCtx{fmt.Sprintf(`[%d,{"c":"v"}]`, i)},
-			D: map[string]string{"k": fmt.Sprintf("v%d", i)}, T: c12ScribText{fmt.Sprintf("text%d", i)}, Z: fmt.Sprintf("after%d", i), N: gojson.Number(fmt.Sprintf("%d.5", i))}
+			D: map[string]string{"k": fmt.Sprintf("v%d", i)}, T: c12ScribText{fmt.Sprintf("text%d", i)}, Z: fmt.Sprintf("after%d", i), N: gojson.Number(fmt.Sprintf("%d.5", i)),
+			IJ: &c12ScribJSON{fmt.Sprintf(`{"ij":[%d]}`, i)}, IT: &c12ScribText{fmt.Sprintf("itext%d", i)}}
 		got := *v
 		jl := got.JL
 		got.JL = nil
@@ -434,7 +438,7 @@ func c12ScribblerCase(c *rt.Ctx, sub int, r *rand.Rand, entry string) {
 		dec = gojson.NewDecoder(bytes.NewReader(in))
 	}
 	for i := 0; i < n; i++ {
-		var v c12ScribDst
+		v := c12ScribDst{IJ: &c12ScribJSON{}, IT: &c12ScribText{}}
 		var err error
 		pan, msg, _ := rt.Guard(func() {
 			switch entry {
